@@ -56,6 +56,17 @@ type C13Obs struct {
 	CookieAfter map[string]string   `json:"cookie_after"`
 	Violations  []string            `json:"violations,omitempty"`
 	Panic       string              `json:"panic,omitempty"`
+
+	// for harness/c13param.go: the request as received, every cookie value after validation
+	q0, h0, ck0All, cookieAll map[string][]string
+}
+
+func cookiesAll(req *http.Request) map[string][]string {
+	out := map[string][]string{}
+	for _, c := range req.Cookies() {
+		out[c.Name] = append(out[c.Name], c.Value)
+	}
+	return out
 }
 
 func (c *C13Case) build() (*routers.Route, func() *http.Request) {
@@ -175,6 +186,7 @@ func runC13(c *C13Case) C13Obs {
 	route, mk := c.build()
 	req := mk()
 	q0, h0, ck0, _, _ := snapshot(mk())
+	o.q0, o.h0, o.ck0All = q0, h0, cookiesAll(mk())
 	opts := &openapi3filter.Options{SkipSettingDefaults: c.Skip, ExcludeReadOnlyValidations: c.ExclRO}
 	opts.AuthenticationFunc = func(_ context.Context, ai *openapi3filter.AuthenticationInput) error {
 		if c.AuthReads && ai.RequestValidationInput.Request.Body != nil {
@@ -203,6 +215,7 @@ func runC13(c *C13Case) C13Obs {
 		o.Violations = append(o.Violations, "valid-body-refused-when-a-default-is-set:"+strings.TrimSpace(strings.SplitN(c.CT, ";", 2)[0]))
 	}
 	var readable bool
+	o.cookieAll = cookiesAll(req)
 	o.QueryAfter, o.HeaderAfter, o.CookieAfter, o.BodyAfter, readable = snapshot(req)
 	// O1: the body can still be read in full
 	if c.Body != "" {
@@ -752,8 +765,8 @@ func init() {
 		meta := &Meta{Property: "C13", Seed: seed, Histogram: map[string]int{}, Shard: 600,
 			Rule: "directed oneOf/anyOf/nested/null/security shapes + seeded random operations: 0-4 parameters (query/header/cookie; integer, string, boolean, number, array defaults; present or absent) x object bodies of depth <= 3 with defaults, read-only members, arrays of objects, allOf, additionalProperties x security requirements with undeclared schemes and body-reading callbacks x skip/exclusion options; each case is validated twice; non-trivial = some default exists or the body is present; distinct by JSON of the case"}
 		seen := map[string]bool{}
-		var terms []string
-		var termIdx []int
+		var terms, pterms []string
+		var termIdx, ptermIdx []int
 		for i := range cases {
 			c := &cases[i]
 			o := runC13(c)
@@ -761,6 +774,12 @@ func init() {
 			if t, ok := c13Coq(c, &o); ok {
 				terms = append(terms, t)
 				termIdx = append(termIdx, i)
+			}
+			if o.Valid && o.Panic == "" {
+				for _, t := range c13ParamTerms(c, o.q0, o.h0, o.ck0All, &o) {
+					pterms = append(pterms, t)
+					ptermIdx = append(ptermIdx, i)
+				}
 			}
 			key, _ := json.Marshal(c)
 			if (c.Body != "" || len(c.Params) > 0) && !seen[string(key)] {
@@ -783,6 +802,17 @@ func init() {
 		files, _ := writeCasesAt(outDir, "cases", "From KV Require Import Model.Base Model.Json Model.Schema Model.Defaults Exec.C13Exec.", "c13case", "judge", terms, meta.Shard, 0)
 		meta.Files = files
 		meta.IndexMap = termIdx
+		if len(pterms) > 0 {
+			var off1 []int
+			for k := range files {
+				off1 = append(off1, k*meta.Shard)
+			}
+			f2, off2 := writeCasesAt(outDir, "param", "From KV Require Import Model.Base Model.Json Model.Schema Model.Request Model.ParamCodec Model.Defaults Exec.C13ParamExec.", "c13p", "judge_param", pterms, meta.Shard, len(terms))
+			meta.Files = append(meta.Files, f2...)
+			meta.Offsets = append(off1, off2...)
+			meta.IndexMap = append(meta.IndexMap, ptermIdx...)
+			meta.Histogram["parameter model comparisons"] = len(pterms)
+		}
 		writeMeta(outDir, meta)
 		fmt.Fprintf(os.Stderr, "C13: %d cases (%d with a body for the model)\n", len(cases), len(terms))
 	}
